@@ -112,7 +112,7 @@ if FAST is not None:
         'SQLiteBuildDB::getKeyIDForID': {
             'requires': ['__CPROVER_is_fresh(self, sizeof(*self))', '__CPROVER_is_fresh(self->delegate, sizeof(*self->delegate))',
                          '__CPROVER_is_fresh(error_out, sizeof(*error_out))', 'self->dbMutex.held', 'g_slots == 0 && g_errors == 0'],
-            'assigns': ['*error_out', 'g_slots', 'g_slot_dk_key', 'g_slot_kd_key', 'g_dk_value', 'g_kd_value', 'g_errors', 'g_bound_stmt'],
+            'assigns': ['*error_out', 'g_slots', 'g_slot_dk_key', 'g_slot_kd_key', 'g_dk_value', 'g_kd_value', 'g_errors', 'g_bound_stmt', '__CPROVER_object_whole(g_bind_i64)', 'g_stepped'],
             'ensures': [
                 # a cached id is answered from the cache; otherwise the stored key text (with its stored byte length) is mapped by the engine
                 ('P:C03', 'g_dk_hit ==> RESULT._value == g_dk_entry.second._value'),
@@ -131,7 +131,8 @@ if FAST is not None:
                          'VEC_OK(result_out->dependencies.items, struct KeyIDAndFlags) && result_out->dependencies.items.cap == 512'],
             'assigns': ['*error_out', 'result_out->value', 'result_out->builtAt', 'result_out->computedAt', 'result_out->start', 'result_out->end', 'result_out->signature',
                         'result_out->dependencies.items.len', '__CPROVER_object_whole(result_out->dependencies.items.ptr)',
-                        'self->dbMutex.held', 'g_slots', 'g_slot_dk_key', 'g_slot_kd_key', 'g_dk_value', 'g_kd_value', 'g_errors', 'g_memcpy_src', 'g_memcpy_n', 'g_dec_src', 'g_dec_pos', 'g_bound_stmt'],
+                        'self->dbMutex.held', 'g_slots', 'g_slot_dk_key', 'g_slot_kd_key', 'g_dk_value', 'g_kd_value', 'g_errors', 'g_memcpy_src', 'g_memcpy_n', 'g_dec_src', 'g_dec_pos', 'g_bound_stmt',
+                        '__CPROVER_object_whole(g_bind_i64)', 'g_stepped'],
             'ensures': ([('P:C03', '!g_open_ok ==> !RESULT'), ('P:C03', '!self->dbMutex.held'),
                          ('P:C03', 'RESULT ==> g_bound_stmt == (g_kd_hit ? self->fastFindRuleResultStmt : self->findRuleResultStmt)')] +
                         row_clauses(FAST, 'g_kd_hit') + row_clauses(SLOW, '!g_kd_hit') +
